@@ -10,7 +10,7 @@ EXTENDS RegionsOps, TLC
 CONSTANTS H, W,     \* grid size
           VALS,     \* set of cell values (integers; NANV = -99 stands for NaN)
           N,        \* neighbourhood: 4 | 8
-          MUT       \* "none" | negative twins "nopass2" | "noelse" | "localreplace" | "alwaysnew"
+          MUT       \* "none" | negative twins "nopass2" | "noelse" | "localreplace" | "alwaysnew" | "absmin" | "wrap64"
 
 VARIABLES data, out, uid, pass, y, x,
           comps      \* ghost: Components of `data`, fixed at Init (never read by the algorithm actions)
